@@ -502,7 +502,14 @@ func (s *fsess) hazardPrefill() error {
 		if err := s.reopen(); err != nil {
 			return err
 		}
-		for i, n := 0, s.ch.Int("pristine_touch", 1, 3); i < n && i < len(written); i++ {
+		// overwrite one to three of those keys - or, in 60 %, all of them: everything the newer
+		// segment holds apart from the delete records becomes garbage, which makes it eligible
+		// under most thresholds on what this session alone knows about it
+		nTouch := s.ch.Int("pristine_touch", 1, 3)
+		if core.Pct(s.ch, "pristine_touch_all", 60) {
+			nTouch = len(written)
+		}
+		for i, n := 0, nTouch; i < n && i < len(written); i++ {
 			if err := s.put(written[i], core.PickInt(s.ch, "churn_vlen", []int{5, 20, 60})); err != nil {
 				return err
 			}
